@@ -93,6 +93,45 @@ inductive Constraint
   | repositoryName | repositoryKey | hasFixedInVersion
   deriving DecidableEq, Repr
 
+def Constraint.all : List Constraint :=
+  [.packageModule, .distributionDID, .distributionName, .distributionVersion, .distributionVersionCodeName,
+   .distributionVersionID, .distributionArch, .distributionPrettyName, .repositoryName, .repositoryKey,
+   .hasFixedInVersion]
+
+/-- The constraint's name in libvuln/driver. -/
+def Constraint.goName : Constraint → String
+  | .packageModule => "PackageModule" | .distributionDID => "DistributionDID"
+  | .distributionName => "DistributionName" | .distributionVersion => "DistributionVersion"
+  | .distributionVersionCodeName => "DistributionVersionCodeName" | .distributionVersionID => "DistributionVersionID"
+  | .distributionArch => "DistributionArch" | .distributionPrettyName => "DistributionPrettyName"
+  | .repositoryName => "RepositoryName" | .repositoryKey => "RepositoryKey"
+  | .hasFixedInVersion => "HasFixedInVersion"
+
+/-- The column of the `vuln` table the query builder compares for the constraint … -/
+def Constraint.column : Constraint → String
+  | .packageModule => "package_module" | .distributionDID => "dist_id"
+  | .distributionName => "dist_name" | .distributionVersion => "dist_version"
+  | .distributionVersionCodeName => "dist_version_code_name" | .distributionVersionID => "dist_version_id"
+  | .distributionArch => "dist_arch" | .distributionPrettyName => "dist_pretty_name"
+  | .repositoryName => "repo_name" | .repositoryKey => "repo_key"
+  | .hasFixedInVersion => "fixed_in_version"
+
+/-- … and the field of the record it is compared with (`holds` below). -/
+def Constraint.recordField : Constraint → String
+  | .packageModule => "Package.Module" | .distributionDID => "Distribution.DID"
+  | .distributionName => "Distribution.Name" | .distributionVersion => "Distribution.Version"
+  | .distributionVersionCodeName => "Distribution.VersionCodeName" | .distributionVersionID => "Distribution.VersionID"
+  | .distributionArch => "Distribution.Arch" | .distributionPrettyName => "Distribution.PrettyName"
+  | .repositoryName => "Repository.Name" | .repositoryKey => "Repository.Key"
+  | .hasFixedInVersion => "exp.NeqOp \"\""
+
+/-- How matchers/defaults names the matcher (package.Type; `name:factory` for rhel). -/
+def MatcherId.goType : MatcherId → String
+  | .alpine => "alpine.Matcher" | .aws => "aws.Matcher" | .debian => "debian.Matcher" | .gobin => "gobin.Matcher"
+  | .java => "java.Matcher" | .nodejs => "nodejs.Matcher" | .oracle => "oracle.Matcher" | .photon => "photon.Matcher"
+  | .python => "python.Matcher" | .rhcc => "rhcc.Matcher" | .ruby => "ruby.Matcher" | .suse => "suse.Matcher"
+  | .ubuntu => "ubuntu.Matcher" | .rhel _ => "rhel:rhel.MatcherFactory"
+
 /-! ### Literals of the Filter functions -/
 
 def sAlpineID : Str := "alpine".toList
